@@ -112,6 +112,49 @@ bfv_cases!(ops_u64, copy_u64, unal_u64, apply_u64, u64);
 bfv_cases!(ops_u128, copy_u128, unal_u128, apply_u128, u128);
 bfv_cases!(ops_usize, copy_usize, unal_usize, apply_usize, usize);
 
+
+/// from_slice / extend / try_chunks_mut / set through chunks; input [src_type, dst_type, width, len, chunk, seed]
+fn misc_case(inp: &[u64]) -> Result<(), String> {
+    use sux::traits::bit_field_slice::*;
+    let (width, len, chunk, seed) = (inp[2] as usize, inp[3] as usize, (inp[4] as usize).max(1), inp[5]);
+    let mut rng = Rng(seed);
+    // from_slice between word types: u16 source holding `width`-bit values into u8 / u16 / u64 destinations
+    let w16 = width.min(16);
+    let maxv: u16 = if w16 == 0 { 0 } else { u16::MAX >> (16 - w16) };
+    let vals: Vec<u16> = (0..len).map(|_| match rng.below(4) { 0 => maxv, 1 => 0, _ => (rng.next() as u16) & maxv }).collect();
+    let mut src = BitFieldVec::<u16>::new(w16, 0);
+    src.extend(vals.iter().copied());
+    if src.len() != len { return Err("extend: len".into()); }
+    for i in 0..len { if src.get(i) != vals[i] { return Err(format!("extend: get({})", i)); } }
+    let need = vals.iter().map(|&x| 16 - x.leading_zeros() as usize).max().unwrap_or(0);
+    match inp[1] % 3 {
+        0 => { let r = BitFieldVec::<u8>::from_slice(&src);
+               if need <= 8 { let d = r.map_err(|e| format!("from_slice<u8> rejected values of {} bits: {}", need, e))?; for i in 0..len { if d.get(i) as u16 != vals[i] { return Err(format!("from_slice<u8>: get({})", i)); } } }
+               else if r.is_ok() { return Err(format!("from_slice<u8> accepted values of {} bits", need)); } }
+        1 => { let d = BitFieldVec::<u16>::from_slice(&src).map_err(|e| format!("from_slice<u16> rejected values of {} bits: {}", need, e))?; for i in 0..len { if d.get(i) != vals[i] { return Err(format!("from_slice<u16>: get({})", i)); } } }
+        _ => { let d = BitFieldVec::<u64>::from_slice(&src).map_err(|e| format!("from_slice<u64>: {}", e))?; for i in 0..len { if d.get(i) as u16 != vals[i] { return Err(format!("from_slice<u64>: get({})", i)); } } }
+    }
+    // chunked writes: every element is written exactly once through the chunks, nothing else changes
+    let spare = 1usize;
+    let nw = ((len * w16 + 15) / 16).max(1) + spare;
+    let words: Vec<u16> = (0..nw).map(|_| rng.next() as u16).collect();
+    let mut v = unsafe { BitFieldVec::<u16, Vec<u16>>::from_raw_parts(words.clone(), w16, len) };
+    let before: Vec<u16> = (0..len).map(|i| v.get(i)).collect();
+    match v.try_chunks_mut(chunk) {
+        Err(()) => { if len <= chunk || (chunk * w16) % 16 == 0 { return Err(format!("try_chunks_mut({}) refused a legal chunk size", chunk)); } }
+        Ok(chunks) => {
+            if !(len <= chunk || (chunk * w16) % 16 == 0) { return Err(format!("try_chunks_mut({}) accepted an unaligned chunk size", chunk)); }
+            let mut base = 0usize;
+            for mut c in chunks { let cl = c.len(); for j in 0..cl { if base + j < len { let x = before[base + j]; c.set(j, (!x) & maxv); } } base += cl; }
+            if base < len { return Err(format!("chunks cover {} of {} elements", base, len)); }
+            for i in 0..len { if v.get(i) != (!before[i]) & maxv { return Err(format!("chunked write: element {}", i)); } }
+            let (nwords, _, _) = v.into_raw_parts();
+            for p in len * w16..nw * 16 { if (nwords[p / 16] >> (p % 16)) & 1 != (words[p / 16] >> (p % 16)) & 1 { return Err(format!("chunked write: storage bit {} beyond len*width changed", p)); } }
+        }
+    }
+    Ok(())
+}
+
 fn bits_of(t: u64) -> u64 { [8, 16, 32, 64, 128, 64][(t % 6) as usize] }
 
 /// first element of every input selects the word type: 0 u8, 1 u16, 2 u32, 3 u64, 4 u128, 5 usize
@@ -119,6 +162,7 @@ fn run_one(case: &str, inp: &[u64]) -> Result<(), String> {
     let t = inp[0] % 6;
     let rest = &inp[1..];
     macro_rules! pick { ($a:ident, $b:ident, $c:ident, $d:ident, $e:ident, $f:ident) => { match t { 0 => $a(rest), 1 => $b(rest), 2 => $c(rest), 3 => $d(rest), 4 => $e(rest), _ => $f(rest) } } }
+    if case == "bfv_misc" { return misc_case(inp); }
     match case {
         "bfv_ops" => pick!(ops_u8, ops_u16, ops_u32, ops_u64, ops_u128, ops_usize),
         "bfv_copy" => pick!(copy_u8, copy_u16, copy_u32, copy_u64, copy_u128, copy_usize),
@@ -131,6 +175,11 @@ pub fn run(case: &str, ctx: &mut Ctx, one: Option<&str>, rng: &mut Rng, budget: 
     if let Some(s) = one {
         let inp = parse_list(s);
         ctx.trial(s, false, || run_one(case, &inp));
+        return;
+    }
+    if case == "bfv_misc" {
+        for dst in 0..3u64 { for w in [0u64, 1, 7, 8, 9, 15, 16] { for len in [0u64, 1, 2, 17, 64] { for chunk in [1u64, 2, 8, 16, 100] { let v = vec![1, dst, w, len, chunk, 5 + w + len]; let s = fmt_list(&v); ctx.trial(&s, false, || run_one(case, &v)); } } } }
+        for _ in 0..budget.min(3000) { let v = vec![1, rng.below(3), rng.below(17), rng.below(300), 1 + rng.below(40), rng.next()]; let s = fmt_list(&v); ctx.trial(&s, false, || run_one(case, &v)); }
         return;
     }
     // small scope first
